@@ -348,7 +348,8 @@ class ObservationPointGone(Exception):
     pass
 
 
-def _kernel_inputs(n):
+def _kernel_inputs(n, coincident=0):
+    """coincident=m: the first m posterior samples coincide (all distances among them are exactly 0)."""
     preds = np.zeros((2, n, 2))
     for p in range(2):
         for t in range(n):
@@ -358,13 +359,42 @@ def _kernel_inputs(n):
     dist = np.zeros((n, n))
     for i in range(n):
         for j in range(i):
-            dist[i, j] = dist[j, i] = 1.0 + i * 0.25 + j * 0.125
+            dist[i, j] = dist[j, i] = 0.0 if (i < coincident and j < coincident) else 1.0 + i * 0.25 + j * 0.125
     return preds, var, dist
 
 
-def scoring_run(n, budget, chooser, rng=None):
+class _RecordingMatrix(np.ndarray):
+    """Distance matrix that remembers the fancy-index gathers made on it: the second observation point for the triples,
+    where they are CONSUMED (D[i1, i2], D[i2, i3], D[i1, i3]); independent of how the triples were produced."""
+
+    def __array_finalize__(self, obj):
+        self.gathers = getattr(obj, "gathers", None)
+
+    def __getitem__(self, key):
+        if isinstance(key, tuple) and len(key) == 2 and all(isinstance(k, np.ndarray) and k.ndim == 1 for k in key) and self.gathers is not None:
+            self.gathers.append((np.asarray(key[0]).astype(np.int64).copy(), np.asarray(key[1]).astype(np.int64).copy()))
+        return np.asarray(super().__getitem__(key))
+
+
+def _triples_from_gathers(gathers, n):
+    """[(None, n, 3, triple)] reconstructed from the three pairwise gathers of one kernel call, or None."""
+    g = [x for x in gathers if len(x[0]) == len(gathers[0][0])][:3] if gathers else []
+    if len(g) != 3:
+        return None
+    out = []
+    for k in range(len(g[0][0])):
+        members = set()
+        for a, b in g:
+            members.update((int(a[k]), int(b[k])))
+        out.append((None, n, 3, tuple(sorted(members, reverse=True))))
+    return out
+
+
+def scoring_run(n, budget, chooser, rng=None, coincident=0):
     """One execution of the real kernel; returns (records, raised)."""
-    preds, var, dist = _kernel_inputs(n)
+    preds, var, dist = _kernel_inputs(n, coincident)
+    dist = dist.view(_RecordingMatrix)
+    dist.gathers = []
     rec = []
     orig = G.get_combination_at_sorted_index
 
@@ -384,6 +414,11 @@ def scoring_run(n, budget, chooser, rng=None):
             return rec, exc, None
     finally:
         G.get_combination_at_sorted_index = orig
+    if not rec:
+        # the kernel no longer goes through the per-index unranker: fall back to the triples it consumed
+        alt = _triples_from_gathers(dist.gathers, n)
+        if alt is not None:
+            rec = alt
     return rec, None, scores
 
 
@@ -650,21 +685,21 @@ class SpreadAnswers:
         return np.array(idx, dtype=np.int64)
 
 
-def run_consumed(col, n, budget):
+def run_consumed(col, n, budget, coincident=0):
     """The triples are also observed where they are CONSUMED: the returned score must equal the Monte-Carlo sum over
     exactly the triples that were unranked, each once (a triple evaluated twice, or dropped, after unranking changes it)."""
     ch = Chooser()
     big = math.comb(n, 3) > 100000
-    rec, exc, scores = scoring_run(n, budget, ch, rng=SpreadAnswers() if big else None)
+    rec, exc, scores = scoring_run(n, budget, ch, rng=SpreadAnswers() if big else None, coincident=coincident)
     col.states += 1
     judge_scoring(col, n, budget, ch.choices[:8], rec, exc)
     if big and rec and exc is None and max(max(r[3]) for r in rec) < n - 1:
         raise ObservationPointGone("the spread answer did not reach the largest theta index")
     if exc is not None or scores is None or not rec:
         return
-    preds, var, dist = _kernel_inputs(n)
+    preds, var, dist = _kernel_inputs(n, coincident)
     triples = [r[3] for r in rec]
-    case = {"kind": "consumed", "n": n, "budget": budget}
+    case = {"kind": "consumed", "n": n, "budget": budget, "coincident": coincident}
     for p in range(preds.shape[0]):
         want = ref_score_over(triples, preds[p].tolist(), var[p].tolist(), dist.tolist())
         got = float(np.asarray(scores)[p])
@@ -679,14 +714,16 @@ def run_consumed(col, n, budget):
 # ... and many posterior samples with a small budget (theta indices beyond 255 / 65535 must survive whatever compact
 # representation the kernel uses for them)
 CONSUMED = [(5, 10), (12, 5000), (19, 5000), (20, 5000), (25, 5000), (33, 2500), (33, 1500), (34, 6000), (40, 5000),
-            (300, 200), (300, 255), (700, 100)]
+            (300, 200), (300, 255), (700, 100),
+            # three / four coincident posterior samples: triples whose summed distance is exactly 0 (weight 0, still used once)
+            (4, 10, 3), (5, 10, 3), (6, 20, 4), (6, 5000, 3), (8, 56, 4), (12, 100, 3)]
 
 
 def run_item(item, col, tier):
     kind = item["kind"]
     if kind == "consumed":
-        for n, budget in item["cases"]:
-            run_consumed(col, n, budget)
+        for c in item["cases"]:
+            run_consumed(col, c[0], c[1], coincident=c[2] if len(c) > 2 else 0)
         return
     if kind == "cross-k":
         # the same n with every k, up and down, inside ONE process: state kept between calls (a cache keyed by n
@@ -755,6 +792,6 @@ def replay(case, col):
     elif case["kind"] == "scorer-history":
         run_item({"kind": "scorer-history", "histories": case["histories"]}, col, "quick")
     elif case["kind"] == "consumed":
-        run_consumed(col, case["n"], case["budget"])
+        run_consumed(col, case["n"], case["budget"], coincident=case.get("coincident", 0))
     else:
         raise ValueError(case)
